@@ -170,10 +170,12 @@ def classify_crash(stderr):
     return 'CRASH other'
 
 
-def run_impl(exe, lines, timeout_per_batch=600, per_case_timeout=20):
-    """Run the C++ harness; isolates crashing / hanging cases (one result per input line)."""
+def run_impl(exe, lines, timeout_per_batch=600, per_case_timeout=20, max_failures=6):
+    """Run the C++ harness; isolates crashing / hanging cases (one result per input line).  After max_failures
+    crashes / hangs in one batch the remaining cases are not run ('SKIPPED'): each hang costs a watchdog period."""
     results = []
     start = 0
+    failures = 0
     env = dict(os.environ)
     env['ASAN_OPTIONS'] = 'detect_leaks=0:allocator_may_return_null=1:max_allocation_size_mb=2048:detect_container_overflow=1'
     env['UBSAN_OPTIONS'] = 'print_stacktrace=0'
@@ -208,12 +210,16 @@ def run_impl(exe, lines, timeout_per_batch=600, per_case_timeout=20):
         results += out[:k]
         results.append('HANG' if rc == -999 else classify_crash(err))
         start += k + 1
+        failures += 1
+        if failures >= max_failures:
+            results += ['SKIPPED'] * (len(lines) - start)
+            break
     return results
 
 
 def lines_agree(model, impl):
     """Model line vs implementation line. '?' in the model (indeterminate) matches anything."""
-    if model == impl:
+    if model == impl or impl == 'SKIPPED':
         return True
     mt, it = model.split(' '), impl.split(' ')
     # an error predicted by the model corresponds to a sanitizer crash of that kind
